@@ -61,6 +61,20 @@ Theorem c16_hook_stop : forall cf s, g_in s = true -> cf_hook cf = true ->
 Proof. exact in_stop_hook. Qed.
 Print Assumptions c16_hook_stop.
 
+(* The MPEG-TS recording, over all histories: one file per input, holding
+   exactly the PAT/PMT and TS blobs handed to the group while that input was
+   attached, in order ([trun] is a function of the history alone); the teardown
+   closes the file with its content unchanged and nothing is appended to any
+   file while no input is attached. *)
+Theorem c16_ts_record : forall cf h,
+  g_trec (run cf h) = tp_rec (trun cf h) /\
+  (forall s, g_trec (step cf s EvInStop) = g_trec s) /\
+  (forall s e, g_in s = false -> e <> EvInStart -> g_trec (step cf s e) = g_trec s).
+Proof.
+  intros cf h. split; [apply trec_follows_history|]. split; [apply in_stop_trec|apply no_input_no_trec].
+Qed.
+Print Assumptions c16_ts_record.
+
 (* Idle check (Group.disposeInactiveSessions + BasicSessionStat.isAlive): at a
    sweep (every 120th tick) a publisher whose connection read nothing since the
    previous sweep is disposed, one that read something is kept; subscribers
@@ -107,6 +121,11 @@ Example c16_hook_nonvacuous :
   let h := [EvPublish (c16_v 23 0 9); EvInStart; EvPublish (c16_v 23 0 1); EvPublish {| rm_type := 8; rm_ts := 0; rm_payload := [] |};
             EvPublish (c16_v 23 1 2); EvInStop; EvInStop; EvInStart; EvPublish (c16_v 23 1 3)] in
   g_hook (run c16_cfg h) = [([4%nat], 0%nat); ([1%nat; 3%nat], 1%nat)].
+Proof. vm_compute. reflexivity. Qed.
+
+Example c16_ts_record_nonvacuous :
+  let h := [EvTs true; EvInStart; EvPatPmt; EvTs true; EvTs false; EvInStop; EvTs true; EvPatPmt; EvInStart; EvPatPmt; EvTs true] in
+  g_trec (run c16_cfg h) = [[LPat 2; LTs 4]; [LPat 0; LTs 1; LTs 2]].
 Proof. vm_compute. reflexivity. Qed.
 
 Example c16_nonvacuous :
